@@ -91,6 +91,14 @@ func main() {
 			os.Exit(2)
 		}
 		props.ProbeWriteSets(p)
+	case "probe-ar":
+		cfg, _ := props.ConfigByName("default")
+		p, err := an.Load("/repo", cfg)
+		if err != nil {
+			fmt.Println(err)
+			os.Exit(2)
+		}
+		props.ProbeArith(p)
 	case "whywrites":
 		cmdWhy(os.Args[2:])
 	case "dump":
